@@ -806,8 +806,15 @@ class SwitchServlet(Servlet):
                 continue
 
             # Determine which member servlet should process `x`:
-            idx = self.switch(x)
-            qins[idx].put((uid, x))
+            try:
+                idx = self.switch(x)
+                q = qins[idx]
+            except Exception as e:
+                # `switch` (user code) failed for this input, or chose a member that does not exist:
+                # the request fails with that error; this thread and the other requests carry on.
+                qout.put((uid, RemoteException(e)))
+                continue
+            q.put((uid, x))
 
     @property
     def input_queue_type(self):
